@@ -209,15 +209,32 @@ def goal_parts(q):
     return q[1], q[2]
 
 
-def run_query(yp, q, limit, vmap=None, builder=None):
+def host_noise(n, tag='pad'):
+    """what an embedding program does to its engine while a query is suspended, without any meaning in Prolog: it interns
+    n atom names nobody uses, makes variables and builds terms from them.  Returns the callback for run_query(between=)"""
+    count = [0]
+
+    def between(yp):
+        count[0] += 1
+        k = count[0]
+        made = [yp.atom('%s_%d_%d' % (tag, k, i)) for i in range(n)]
+        v = yp.variable()
+        if made:
+            yp.functor('pad_holder', [made[0], v, yp.listpair(made[-1], yp.ATOM_NIL)])
+    return between
+
+
+def run_query(yp, q, limit, vmap=None, builder=None, between=None):
     """enumerate query term q on engine yp; returns (status, answers) with answers canonical like R.query:
-    status 'done' (exhausted) or 'limit'."""
+    status 'done' (exhausted) or 'limit'.  between(yp) is called after the query object is made and after every answer"""
     name, args = goal_parts(q)
     vmap = {} if vmap is None else vmap
     eargs = [to_engine(builder or yp, a, vmap) for a in args]
     out = []
     status = 'done'
     g = yp.query(name, eargs)
+    if between:
+        between(yp)
     try:
         for _ in g:
             seen = {}
@@ -228,6 +245,8 @@ def run_query(yp, q, limit, vmap=None, builder=None):
             if len(out) >= limit:
                 status = 'limit'
                 break
+            if between:
+                between(yp)
     finally:
         g.close()
     return status, out
